@@ -31,6 +31,7 @@ type ttlOp struct {
 	Rel      uint32 `json:"rel,omitempty"`   // if > 0: a relative expiry (offset in seconds) instead
 	Preserve bool   `json:"preserve,omitempty"`
 	Ms       int    `json:"ms,omitempty"` // sleep
+	CreateOrOpen bool `json:"create_or_open,omitempty"` // reopen: with CreateOrOpen instead of ReOpenExisting
 }
 
 type ttlInput struct {
@@ -148,7 +149,11 @@ func execTtl(in ttlInput, scratch string) (Case, error) {
 			if op.Ms > 0 {
 				time.Sleep(time.Duration(op.Ms) * time.Millisecond)
 			}
-			b, err = rosmar.OpenBucket(url, name, rosmar.ReOpenExisting)
+			rmode := rosmar.OpenMode(rosmar.ReOpenExisting)
+			if op.CreateOrOpen {
+				rmode = rosmar.CreateOrOpen
+			}
+			b, err = rosmar.OpenBucket(url, name, rmode)
 			if err != nil {
 				closed = true
 				return c, err
@@ -304,7 +309,7 @@ func genTtl(r *rand.Rand) ttlInput {
 		}
 	}
 	if in.OnDisk && r.Intn(2) == 0 {
-		op := ttlOp{Kind: "reopen"}
+		op := ttlOp{Kind: "reopen", CreateOrOpen: r.Intn(2) == 0}
 		if r.Intn(2) == 0 {
 			op.Ms = 4500 // stay closed until after every deadline up to t0+4
 		}
